@@ -6,6 +6,12 @@ that happens while c's command runs, `time.monotonic_ns` of scheduler.py by a sc
 case is fully deterministic (no threads racing, no sleeps): all other actors act from inside c's
 own command coroutine.
 
+A case continues after c has SUCCEEDED: the next dispatch of a step that holds a stored hash is a
+CHECKING job (Executor.try_skip_job or validate_dynamic_job, model/FreshSkip.v).  The await of the
+output hashing inside try_skip_job is wrapped (Executor._compute_out_step_hash), so that other actors
+can act inside that window as well; hash cancellation is injected by setting the real cancel event
+of the ThreadWorker right before hash.compute_*_hashes runs.
+
 A case produces (a) the model trace (events + what the implementation showed after every event of
 c) for Fresh.check_trace and (b) an independent log (event order of producer stops, contents on
 disk over time) for the property oracle.
@@ -67,6 +73,12 @@ class Case:
         self.contents = {}       # path -> list of (order, code) writes
         self.runs = []           # per run of c: dict(start, end, initial, amended, verdicts...)
         self.defer_calls = []
+        self.envcodes = {}       # value of the tracked environment variable -> small int
+
+    def envcode(self, value):
+        if value not in self.envcodes:
+            self.envcodes[value] = len(self.envcodes) + 1
+        return self.envcodes[value]
 
     def code(self, fh):
         if fh.is_unknown:
@@ -77,7 +89,13 @@ class Case:
         return self.codes[key]
 
 
+ENV_VAR = "VERIF_C03_ENV"
+OUT = "c_out.txt"
+
+
 def fid(path, paths):
+    if path == OUT:
+        return len(paths) + 1
     return paths.index(path) + 1
 
 
@@ -91,6 +109,7 @@ async def run_case(spec):
     from stepup.core.executor import Executor
     from stepup.core.file import File
     from stepup.core.hash import FileHash, StepHash
+    from stepup.core.job import ValidateDynamicJob
     from stepup.core.outcome import ChildOutcome
     from stepup.core.sqlite3 import DBSession
     from stepup.core.step import Step
@@ -103,6 +122,9 @@ async def run_case(spec):
     old_launch = ex_mod.launch_command
     old_time = sched_mod.time
     old_defer = Executor.defer
+    old_out_hash = Executor._compute_out_step_hash
+    old_compute = {n: getattr(ex_mod, n) for n in ("compute_inp_hashes", "compute_out_hashes", "compute_both_hashes")}
+    old_env = os.environ.get(ENV_VAR)
 
     def rec_defer(self, job_i, *, unavailable=None, unfresh=None):
         case.defer_calls.append((sorted(unavailable or ()), sorted(unfresh or ())))
@@ -116,10 +138,18 @@ async def run_case(spec):
         stack.callback(setattr, sched_mod, "time", old_time)
         Executor.defer = rec_defer
         stack.callback(setattr, Executor, "defer", old_defer)
+
+        def restore_env():
+            if old_env is None:
+                os.environ.pop(ENV_VAR, None)
+            else:
+                os.environ[ENV_VAR] = old_env
+        os.environ[ENV_VAR] = "e0"
+        stack.callback(restore_env)
         db = stack.enter_context(DBSession.open(":memory:"))
         rep = _Rep()
         cfg = ServeConfig(njob=4, use_duration=False, defer_cap=spec["cap"], keep_going=spec["keep_going"],
-                          do_watch=False)
+                          do_watch=False, explain_rerun=bool(spec.get("explain", False)))
         h = await _wire_director(db=db, reporter=rep, config=cfg, infra_env={}, mp_ctx=None)
         wf, sched, execu = h.workflow, h.scheduler, h.executor
 
@@ -277,14 +307,25 @@ async def run_case(spec):
                 q.reset_for_rerun()
         # define c
         async with db:
-            wf.define_step(plan, "c", inp_paths=spec["initial"], out_paths=["c_out.txt"])
+            wf.define_step(plan, "c", inp_paths=spec["initial"], out_paths=[OUT], env_deps=[ENV_VAR])
             cstep = wf.find(Step, "c")
         keys = [cstep.i, q.i, plan.i] + [p.i for p in producers.values()]
         case.keys = keys
         case.cid = cstep.i
         for path in paths:   # initial disk contents for the model
             case.trace.append(("EWrite", (fid(path, paths), disk_code(path)), None))
+        case.env0 = case.envcode(os.environ.get(ENV_VAR))
         await sync_rows()
+
+        def hash_info(sh):
+            """(has_hash, ingredient lists of an explained hash or None)."""
+            if sh is None:
+                return False, None
+            if sh.inp_info is None or sh.out_info is None:
+                return True, None
+            inp = sorted((fid(p_, paths), case.code(fh)) for p_, fh in sh.inp_info.inp_hashes.items())
+            out = sorted((fid(p_, paths), case.code(fh)) for p_, fh in sh.out_info.out_hashes.items())
+            return True, {"env": case.envcode(sh.inp_info.env_values.get(ENV_VAR)), "inp": inp, "out": out}
 
         def observe():
             st, df, dc = read_crow()
@@ -292,8 +333,24 @@ async def run_case(spec):
                 "SELECT node.label FROM dependency JOIN dynamic_dep ON dynamic_dep.i = dependency.i "
                 "JOIN node ON node.i = dependency.source WHERE dependency.sink = ?", (cstep.i,)) if r[0] in paths]
             crow_seen[0] = (st, df, dc)
+            hh, hinfo = hash_info(cstep.get_hash())
             return {"state": st, "deferred": bool(df), "dc": dc, "draining": bool(sched.draining),
-                    "starts": dict(sched.start_times), "stops": dict(sched.stop_times), "dyn": sorted(dyn)}
+                    "starts": dict(sched.start_times), "stops": dict(sched.stop_times), "dyn": sorted(dyn),
+                    "has_hash": hh, "hash": hinfo}
+
+        def write_out(variant):
+            """c's output is written (by c's command or by an external writer) or deleted (0)."""
+            p = Path(OUT)
+            if variant == 0:
+                if p.exists():
+                    p.remove()
+            else:
+                p.write_text(f"out:{variant}")
+            c = disk_code(OUT)
+            case.order += 1
+            case.contents.setdefault(OUT, []).append((case.order, c))
+            case.trace.append(("EWrite", (fid(OUT, paths), c), None))
+            return c
 
         # ---------------- environment actions ----------------
         async def env_action(a):
@@ -340,6 +397,32 @@ async def run_case(spec):
                     except GraphError:
                         pass
                 await sync_rows()
+            elif kind == "repend":        # another transaction makes c pending again (Workflow.mark_step_pending)
+                async with db:
+                    wf.mark_step_pending(cstep)
+                await sync_rows()
+            elif kind == "wout":          # an external writer replaces or deletes the output of c
+                write_out(a[1])
+                case.log.append({"what": "external-write", "order": case.order, "path": OUT})
+            elif kind == "outcheck":      # the start-up / watcher check of the outputs (cause EXTERNAL)
+                async with db:
+                    f = wf.find(File, OUT)
+                    if f is not None and f.get_state() in (FileState.BUILT, FileState.OUTDATED):
+                        fh = real_hash(OUT)
+                        if fh != f.get_hash() or fh.is_unknown:
+                            wf.update_file_hashes({OUT: fh}, cause=HashUpdateCause.EXTERNAL)
+                await sync_rows()
+            elif kind == "setenv":        # a new director process sees another value (startup.rescan_env_vars)
+                os.environ[ENV_VAR] = a[1]
+                execu._base_env_cache = None
+                case.trace.append(("XEnvC", case.envcode(a[1]), None))
+                async with db:
+                    wf.mark_step_pending(cstep)
+                await sync_rows()
+            elif kind == "delhash":       # another actor drops the stored hash (nglob change, lost product)
+                async with db:
+                    cstep.delete_hash()
+                case.trace.append(("XHashDel", None, None))
             elif kind == "newphase":      # end of a build phase, then a new one is started
                 await sched.build_completed()
                 bk(("BClear",))
@@ -355,6 +438,17 @@ async def run_case(spec):
         # ---------------- the command of c ----------------
         current = {}
 
+        async def snapshot_rows():
+            changed_rows = []
+            async with db:
+                obs = observe()
+                for p in paths:
+                    rr = read_row(p)
+                    if rows_seen.get(p) != rr:
+                        rows_seen[p] = rr
+                        changed_rows.append(p)
+            return obs, changed_rows
+
         async def fake_launch(command, *, shell, env, cwd, mp_ctx, run):
             if command != "c":
                 raise AssertionError(f"unexpected command {command}")
@@ -364,7 +458,7 @@ async def run_case(spec):
             case.order += 1
             current["run"] = {"start": case.order, "initial": list(spec["initial"]), "amended": [],
                               "amend_verdicts": [], "job_i": run.job_i}
-            case.trace.append(("ETry", current["t_start"], ("RTry", True, obs)))
+            case.trace.append(("XTry", (current["t_start"], False), ("XRTry", 1, True, obs)))
             for a in script["during"]:
                 if a[0] == "amend":
                     ps = sorted(set(a[1]))
@@ -382,14 +476,7 @@ async def run_case(spec):
                     unav, unfr = ([], [])
                     if len(case.defer_calls) > n0:
                         unav, unfr = case.defer_calls[-1]
-                    changed_rows = []
-                    async with db:
-                        obs = observe()
-                        for p in paths:
-                            rr = read_row(p)
-                            if rows_seen.get(p) != rr:
-                                rows_seen[p] = rr
-                                changed_rows.append(p)
+                    obs, changed_rows = await snapshot_rows()
                     case.order += 1
                     if not rejected:
                         current["run"]["amended"] += [p for p in ps if p not in current["run"]["amended"]]
@@ -405,9 +492,8 @@ async def run_case(spec):
                 else:
                     await env_action(a)
             if script["write_out"]:
-                Path("c_out.txt").write_text(f"out{case.order}")
+                write_out(1000 + case.order)
             current["t_end"] = clock.now
-            current["out_exists"] = Path("c_out.txt").exists()
             async with db:   # what is recorded for the inputs when the command returns
                 current["run"]["end_inputs"] = [(rec.path, rec.state.value, case.code(rec.hash), rec.dynamic)
                                                 for rec in cstep.inp_paths()]
@@ -418,51 +504,104 @@ async def run_case(spec):
         ex_mod.launch_command = fake_launch
         stack.callback(setattr, ex_mod, "launch_command", old_launch)
 
+        # try_skip_job: the await of the output hashing is a window in which other actors run
+        async def out_hook(self, run, step_hash):
+            script = current["script"]
+            obs, changed_rows = await snapshot_rows()
+            case.trace.append(("XTry", (current["t_start"], False), ("XRTry", 2, False, obs)))
+            for p in changed_rows:
+                case.trace.append(("ERow", (fid(p, paths), rows_seen[p]), None))
+            current["chk_started"] = True
+            for a in script.get("chk_during", []):
+                if a[0] != "amend":
+                    await env_action(a)
+            case.order += 1
+            current["chk"]["out_order"] = case.order
+            current["chk"]["out_now"] = {OUT: real_hash(OUT)}
+            return await old_out_hash(self, run, step_hash)
+
+        Executor._compute_out_step_hash = out_hook
+        stack.callback(setattr, Executor, "_compute_out_step_hash", old_out_hash)
+
+        # hash cancellation: the real cancel event of the ThreadWorker is set right before the real
+        # hash.compute_* function runs in its thread (as Executor.interrupt does during a shutdown)
+        def cancelling(orig, site):
+            def wrapped(*args):
+                if site in current.get("cancel", ()):
+                    args[-1].set()
+                return orig(*args)
+            return wrapped
+        for name, site in (("compute_inp_hashes", "new_run"), ("compute_out_hashes", "out"),
+                           ("compute_both_hashes", "end")):
+            setattr(ex_mod, name, cancelling(old_compute[name], site))
+            stack.callback(setattr, ex_mod, name, old_compute[name])
+
         for script in spec["runs"]:
             for a in script["before"]:
                 await env_action(a)
-            current["script"] = script
-            current["run"] = None
-            current["t_start"] = clock.now
+            current.clear()
+            current.update({"script": script, "run": None, "t_start": clock.now, "chk_started": False,
+                            "cancel": set(script.get("cancel", [])), "chk": {}})
+            cancel = current["cancel"]
             job = await sched.pop_next_job()
             if job is None:
                 async with db:
                     obs = observe()
-                case.trace.append(("ETry", clock.now, ("RTry", False, obs)))
+                case.trace.append(("XTry", (clock.now, "new_run" in cancel), ("XRTry", 0, False, obs)))
                 case.runs.append({"dispatched": False})
                 continue
             if job.step.i != cstep.i:
                 raise AssertionError(f"another step was dispatched: {job.step.label}")
-            ntrace = len(case.trace)
+            kind = 3 if isinstance(job, ValidateDynamicJob) else (1 if job.runs_command else 2)
+            nev = len(rep.events)
+            if kind != 1:
+                # the property's own view at the moment the inputs are hashed (implementation only)
+                case.order += 1
+                async with db:
+                    recs = list(cstep.inp_paths())
+                    shell, overrides = cstep.uses_shell(), cstep.get_env_overrides()
+                current["chk"].update({
+                    "inp_order": case.order, "stored": job.step_hash, "label": cstep.label, "shell": shell,
+                    "overrides": overrides, "env_deps": list(job.env_deps),
+                    "env_now": {name: execu.base_env.get(name) for name in job.env_deps},
+                    "inputs": [(r.path, r.state.value, r.dynamic) for r in recs],
+                    "inp_now": {r.path: real_hash(r.path) for r in recs},
+                    "inp_rec": {r.path: r.hash for r in recs}})
             await asyncio.wait_for(job.coro(execu), 60)
             sched.record_job_completed(job)
-            changed_rows = []
+            obs, changed_rows = await snapshot_rows()
             async with db:
-                obs = observe()
-                for p in paths:
-                    rr = read_row(p)
-                    if rows_seen.get(p) != rr:
-                        rows_seen[p] = rr
-                        changed_rows.append(p)
                 final_inputs = [(rec.path, rec.state.value, case.code(rec.hash), rec.dynamic)
                                 for rec in cstep.inp_paths()]
-            if current["run"] is None:
-                # the command never started (pre-run check failed)
-                case.trace.append(("ETry", current["t_start"], ("RTry", False, obs)))
-                case.runs.append({"dispatched": True, "started": False, "state": obs["state"],
-                                  "draining": obs["draining"]})
+            tags = [e[0] for e in rep.events[nev:]]
+            if kind == 1:
+                if current["run"] is None:
+                    # the command never started (pre-run check failed or was cancelled)
+                    case.trace.append(("XTry", (current["t_start"], "new_run" in cancel), ("XRTry", 1, False, obs)))
+                    case.runs.append({"dispatched": True, "started": False, "state": obs["state"],
+                                      "draining": obs["draining"], "kind": 1, "cancel": sorted(cancel),
+                                      "has_hash": obs["has_hash"]})
+                else:
+                    case.trace.append(("XEnd", (current["t_end"], script["rc"] == 0, "end" in cancel),
+                                       ("XREnd", obs)))
+                    r = current["run"]
+                    r.update({"dispatched": True, "started": True, "state": obs["state"], "deferred": obs["deferred"],
+                              "dc": obs["dc"], "draining": obs["draining"], "final_inputs": final_inputs,
+                              "rc": script["rc"], "write_out": script["write_out"], "kind": 1,
+                              "cancel": sorted(cancel), "has_hash": obs["has_hash"]})
+                    case.runs.append(r)
             else:
-                case.trace.append(("EEnd", (current["t_end"], script["rc"] == 0 and current["out_exists"]),
-                                   ("REnd", obs)))
-                r = current["run"]
-                r.update({"dispatched": True, "started": True, "state": obs["state"], "deferred": obs["deferred"],
-                          "dc": obs["dc"], "draining": obs["draining"], "final_inputs": final_inputs,
-                          "rc": script["rc"], "write_out": script["write_out"]})
-                case.runs.append(r)
+                if current["chk_started"]:
+                    case.trace.append(("XChk", (clock.now, "out" in cancel), ("XRChk", "SKIP" in tags, obs)))
+                else:
+                    case.trace.append(("XTry", (current["t_start"], "new_run" in cancel), ("XRTry", kind, False, obs)))
+                case.runs.append({"dispatched": True, "started": False, "kind": kind, "state": obs["state"],
+                                  "deferred": obs["deferred"], "draining": obs["draining"], "tags": tags,
+                                  "has_hash": obs["has_hash"], "cancel": sorted(cancel), "chk": dict(current["chk"]),
+                                  "chk_started": current["chk_started"], "final_inputs": final_inputs,
+                                  "n_dyn": len(obs["dyn"])})
             for p in changed_rows:
                 case.trace.append(("ERow", (fid(p, paths), rows_seen[p]), None))
-            if obs["state"] == StepState.SUCCEEDED.value:
-                break   # a stored step hash would make the next dispatch a CHECKING job (not modelled)
         case.paths = paths
         case.events = rep.events
     return case
